@@ -114,7 +114,7 @@ public:
 	einteger& operator>>=(int shift) {
 		if (shift == 0) return *this;
 		if (shift < 0) return operator>>=(-shift);
-		if (shift > static_cast<int>(nbits())) {
+		if (_block.empty() || shift >= static_cast<int>(nbits())) {
 			setzero();
 			return *this;
 		}
@@ -122,13 +122,13 @@ public:
 		size_t blockShift = 0;
 		if (shift >= static_cast<int>(bitsInBlock)) {
 			blockShift = shift / bitsInBlock;
-			if (MSU >= blockShift) {
-				// shift by blocks
-				for (size_t i = 0; i <= MSU - blockShift; ++i) {
-					_block[i] = _block[i + blockShift];
-					_block[i + blockShift] = 0; // null the upper block
-				}
+			// shift by blocks: move the surviving blocks down and drop the vacated upper ones
+			// (blockShift <= MSU because shift < nbits())
+			for (size_t i = 0; i + blockShift <= MSU; ++i) {
+				_block[i] = _block[i + blockShift];
 			}
+			_block.resize(MSU + 1 - blockShift);
+			MSU = _block.size() - 1;
 			// adjust the shift
 			shift -= static_cast<int>(blockShift * bitsInBlock);
 			if (shift == 0) {
